@@ -115,11 +115,18 @@ class C05(core.Prop):
             for el in gg.elems(s0['chain']):
                 if len(el['br']) == 1:
                     for pre in (None, 'p%d' % el['v']):
-                        s = copy.deepcopy(s0)
-                        tgt = [e for e in gg.elems(s['chain']) if e['v'] == el['v']][0]
-                        tgt['br'][0]['mult'] = 'b%d' % el['v']
-                        tgt['br'][0]['pre'] = pre
-                        yield s
+                        for follower_symbol in (True, False):
+                            s = copy.deepcopy(s0)
+                            tgt = [e for e in gg.elems(s['chain']) if e['v'] == el['v']][0]
+                            tgt['br'][0]['mult'] = 'b%d' % el['v']
+                            tgt['br'][0]['pre'] = pre
+                            if not follower_symbol:
+                                # what follows the multiplied unit is written without a bond symbol of its own
+                                fol = self._after_branch(s['chain'], tgt)
+                                if fol is None:
+                                    continue
+                                fol['ord'] = None
+                            yield s
 
         for n in range(1, nmax + 1):
             for base in gg.tree_shapes(n, max_nest=2):
@@ -142,6 +149,16 @@ class C05(core.Prop):
                     el['ann'] = 'q_kw'
                 s['cmax'] = 3
                 out.append(s)
+        if tier == 'quick':
+            for base in gg.tree_shapes(3, max_nest=2) + gg.tree_shapes(4, max_nest=2)[:8]:
+                firsts = list(candidates(base))
+                for s1 in firsts[::2]:
+                    for s2 in firsts[1::3]:
+                        t = self._merge(s1, s2)
+                        if t is not None:
+                            t['cmax'] = 2
+                            t['cmin'] = 2
+                            out.append(t)
         if tier == 'thorough':
             # two multipliers (incl. nested: node multiplier inside a multiplied branch, branch in branch)
             for n in range(2, 5):
@@ -169,6 +186,20 @@ class C05(core.Prop):
                 seen.add(k)
                 uniq.append(s)
         return uniq
+
+    @staticmethod
+    def _after_branch(chain, target):
+        """the element written directly after target's (single) branch: the chain continuation of target"""
+        res = []
+
+        def visit(ch):
+            for i, el in enumerate(ch):
+                if el is target and i + 1 < len(ch):
+                    res.append(ch[i + 1])
+                for b in el['br']:
+                    visit(b['chain'])
+        visit(chain)
+        return res[0] if res else None
 
     @staticmethod
     def _multi_branch_in_mult(chain):
